@@ -189,7 +189,6 @@ def _accumulators(fn, loop):
     if n not in inside and isinstance(n, ast.Name) and isinstance(n.ctx, ast.Load) \
         and (n.lineno, n.col_offset) > (loop.end_lineno, loop.end_col_offset):
       after.add(n.id)
-  # a loop nested in another loop: what the outer iteration reads counts too
   return written & after
 
 
